@@ -472,8 +472,55 @@ def _structural_arg(ctx, fn, call):
         ty = a.get('ty', '')
         # graphql_parser AST / introspection TypeRef / Value
         if any(x in ty for x in ('graphql_parser::', 'TypeRef', 'introspection_response')):
-            return True, 'descends into a sub-node of the parsed input (%s)' % ty.split('<')[0].split('::')[-1]
+            # .. and it is a part of what the function received, not a value built on the spot (`&BTreeMap::new()`)
+            params = set()
+            for p_ in fn.params:
+                params |= _pat_hids(p_)
+            if _locals_behind(fn, a) & params:
+                return True, 'descends into a sub-node of the parsed input (%s)' % ty.split('<')[0].split('::')[-1]
     return False, ''
+
+
+def _locals_behind(fn, e):
+    """locals an expression is computed from, transitively through every binding source (let initialisers, assignments,
+    match / for / or-pattern bindings, closure parameters -> the collection the closure is applied to)"""
+    seen = set()
+    todo = [e]
+    while todo:
+        x = todo.pop()
+        for n_ in H.walk(x):
+            if n_['k'] == 'path' and n_['res'].get('r') == 'local':
+                h = n_['res']['hid']
+                if h in seen:
+                    continue
+                seen.add(h)
+                for s_ in fn.binds.get(h, []):
+                    while s_[0] == 'proj':
+                        s_ = s_[1]
+                    if s_[0] in ('expr', 'assign') and isinstance(s_[1], dict):
+                        todo.append(s_[1])
+                    elif s_[0] == 'cparam':
+                        pr = fn.parent.get(id(s_[1]))
+                        while pr and pr[0] is not None and pr[0].get('k') in ('wrap', 'ref'):
+                            pr = fn.parent.get(id(pr[0]))
+                        if pr and pr[0] is not None and pr[0].get('k') == 'mcall':
+                            todo.append(pr[0]['recv'])
+    return seen
+
+
+def _pat_hids(p):
+    out = set()
+    if not isinstance(p, dict):
+        return out
+    if p.get('k') == 'bind':
+        out.add(p['hid'])
+    for v in p.values():
+        if isinstance(v, dict):
+            out |= _pat_hids(v)
+        elif isinstance(v, list):
+            for x in v:
+                out |= _pat_hids(x.get('pat', x) if isinstance(x, dict) else {})
+    return out
 
 
 @rule('REC-GUARD', 'REACH-FRAGMENT')
